@@ -24,7 +24,7 @@ import g3gen as G
 
 ALGS = ("envelope", "gso", "svd", "cholesky")
 TYPES = ("vector", "xyz", "distance", "height", "hdiff", "zenith", "angle")   # the supported alphabet
-EXTRA_TYPES = ("azimuth", "anglereflex")                                       # run as singles only
+EXTRA_TYPES = ("azimuth",)                                                     # refused by the parser (known finding): single-type family only
 LINEAR = ("vector", "xyz")
 
 RAD_TO_CC = 200.0e4 / math.pi
@@ -35,6 +35,7 @@ TOL_RES = 1.1e-5     # m   residuals are printed with 5 decimals
 PERT = {"A": (0.00052, -0.00033, 0.00043), "B": (-0.00041, 0.00057, -0.00029),
         "C": (0.00031, 0.00047, -0.00055), "D": (-0.00053, -0.00036, 0.00044)}
 FAR_FACTOR = 600.0
+MAX_PERT = max(abs(v) for p in PERT.values() for v in p)
 NOISE = (0.0031, -0.0024, 0.0017, -0.0029, 0.0022, 0.0035, -0.0019, 0.0027, -0.0033)
 
 G3_TIMEOUT = 2.0    # s; a run takes 3 ms
@@ -82,15 +83,9 @@ def geometry(place, npts):
         X = G.fl(T)
         fr = G.frames_of(X)
         cand = G.candidates(npts)
-        # angles: orient every candidate so that the clockwise angle left -> right is < 200 gon
-        ang = []
-        for o in cand["angle"][:-1]:
-            if R.obs_value(o, X)[0] > math.pi:
-                o = ("angle", o[1], o[3], o[2])
-            ang.append(o)
-        cand["angle"] = ang
-        o = ang[0]
-        cand["anglereflex"] = [("angle", o[1], o[3], o[2])]
+        # angles are taken as they come (clockwise left -> right, 0..400 gon): the ring
+        # candidates plus the explement of the first one, so every network with angles
+        # holds at least one angle above 200 gon
         _cache[key] = (T, X, fr, cand)
     return _cache[key]
 
@@ -164,8 +159,17 @@ def classify(sp):
                 j = cidx.get((pid, 2))
                 if j is not None and max(abs(r[j]) for r in M) < R.ACCEPT:
                     weak = True
+    # gama's zenith row is the plane formula: it leaves out the turn of the station's
+    # vertical with the station's position (1/R rad per metre against |u|/s rad per
+    # metre of the horizontal coefficient).  eps_zen = largest such ratio in the network.
+    eps_zen = 0.0
+    T_, X_, fr_, cand_ = geometry(sp["place"], sp["npts"])
+    for o, _ in recs:
+        if o[0] == "zenith":
+            n_, e_, u_ = R.local(X_[o[1]], X_[o[2]])
+            eps_zen = max(eps_zen, (1.0 / 6.33e6) / (abs(u_) / (n_ * n_ + e_ * e_ + u_ * u_)))
     if not cols:
-        res = dict(cols=cols, neq=neq, defect=None, basis=[], S=S, cls="noparams", feat=feat)
+        res = dict(cols=cols, neq=neq, defect=None, basis=[], S=S, cls="noparams", feat=feat, eps_zen=eps_zen)
     else:
         rank, basis, status = R.rank_nullspace(M, len(cols))
         defect = len(cols) - rank
@@ -176,7 +180,23 @@ def classify(sp):
         else:
             rs = R.resolves(basis, S)
             cls = {"yes": "resolved", "no": "unresolved", "ambiguous": "ambiguous"}[rs]
-        res = dict(cols=cols, neq=neq, defect=defect, basis=R.orthonormal(basis) if basis else [], S=S, cls=cls, feat=feat)
+            # A null space is only "exact" if it does not rest on a cancellation inside a
+            # row that an implementation may legitimately approximate (zenith angles and
+            # angles: plane formulae, neglected tilt of the verticals, relative 1e-7 .. 6e-3).
+            # If such a row touches a parameter on which the null space lives, the rank of
+            # the implementation's matrix is decided by those neglected terms: ambiguous.
+            Q = R.orthonormal(basis)
+            support = set(j for j in range(len(cols)) if max(abs(q[j]) for q in Q) > 1e-6)
+            for o, _ in recs:
+                if o[0] == "zenith":
+                    touched = [(p_, k) for p_ in o[1:] for k in range(3)]
+                elif o[0] == "angle":
+                    touched = [(p_, k) for p_ in o[1:] for k in (0, 1)] + [(p_, 2) for p_ in o[2:]]
+                else:
+                    continue
+                if any(cidx.get(c) in support for c in touched if c in cidx):
+                    cls = "ambiguous" if cls == "resolved" else cls
+        res = dict(cols=cols, neq=neq, defect=defect, basis=R.orthonormal(basis) if basis else [], S=S, cls=cls, feat=feat, eps_zen=eps_zen)
     _cache[key] = res
     return res
 
@@ -472,12 +492,6 @@ def evaluate(sp):
     if sp["mode"] == "omit" and not omit_has_seed(sp):
         out["outcomes"].append("excluded:omit-without-any-given-position")
         return out
-    if cl["feat"] != "-" and len(sp["types"]) > 1:
-        # Model::revision(Angle*) under-allocates the design matrix for such points
-        # (known finding, heap corruption: crash or hang); executed in the single-type
-        # families only so that hangs cannot eat the time budget
-        out["outcomes"].append("excluded:%s-in-mixture" % cl["feat"])
-        return out
     tsig = types_sig(sp)
     mode = sp["mode"]
     raw = []                     # (clause, extra, detail); the signature is completed at the end
@@ -492,6 +506,10 @@ def evaluate(sp):
     approx = approx_coords(sp)
     T, X, fr, cand = geometry(sp["place"], sp["npts"])
     ids = G.IDS[:sp["npts"]]
+    # tolerance of "adjusted = generating": 2e-6 m, plus - from displaced approximate
+    # coordinates only - what the neglected turn of the vertical in a plane zenith row can
+    # leave after the single step of gama-g3: eps_zen (<= 6.5e-3 here) x displacement (<= 0.57 mm)
+    tol_xyz = TOL_XYZ + (cl["eps_zen"] * MAX_PERT if mode == "pert" else 0.0)
     base = os.path.join(CFG["tmp"], "c%d" % os.getpid())
     xml_path = base + ".xml"
     with open(xml_path, "w") as f:
@@ -501,7 +519,7 @@ def evaluate(sp):
     results = {}
     dumps = {}
     for a in algs:
-        rc, err, text, pe = run_g3(xml_path, a, base + "." + a + ".out", base + "." + a + ".pe", patient=(cl["feat"] == "-"))
+        rc, err, text, pe = run_g3(xml_path, a, base + "." + a + ".out", base + "." + a + ".pe")
         Cn("g3_runs")
         res = G.parse_results(text) if rc == 0 else None
         results[a] = (rc, err, res)
@@ -572,7 +590,7 @@ def evaluate(sp):
                     d = abs(xyz[i] - X[pid][i])
                     if d > worst:
                         worst, wdesc = d, "%s %s-adjusted %.9f generating %s (diff %.3e m)" % (pid, "xyz"[i], xyz[i], T[pid][i], xyz[i] - X[pid][i])
-            if worst > TOL_XYZ:
+            if worst > tol_xyz:
                 V("adjusted", "%s|%s|%s" % (cls, mode, a), "algorithm %s: %s" % (a, wdesc))
         else:
             # defect resolved by the constrained parameters, displaced approximate coordinates:
@@ -588,7 +606,7 @@ def evaluate(sp):
                     dm = abs(di) * (norm_sight(o, X) if o[0] in R.ANGULAR else 1.0)
                     if dm > worst:
                         worst, wdesc = dm, "observation %s is not reproduced by the adjusted coordinates (%.3e m)" % (" ".join(o), dm)
-            if worst > TOL_XYZ:
+            if worst > tol_xyz:
                 V("adjusted", "%s|%s|%s" % (cls, mode, a), "algorithm %s: %s" % (a, wdesc))
             else:
                 xs = [res["points"][pid].get("d" + "neu"[k], 0.0) for (pid, k) in cl["cols"]]
